@@ -220,9 +220,9 @@ func runC18(r *vf.Run) {
 		for _, total := range totals {
 			reps := 1
 			if total <= 64 {
-				reps = r.Pick(20, 100)
+				reps = r.Pick(20, 300)
 			} else if r.Thorough() {
-				reps = 4
+				reps = 24
 			}
 			for rep := 0; rep < reps; rep++ {
 				g := gs[rng.Intn(len(gs))]
